@@ -26,9 +26,10 @@ from __future__ import annotations
 import itertools
 import time
 
-from ..core import Run, pmap, ToolError
+from ..core import Run, pmap, chunked, ToolError
 from ..cohdl_util import compile_source
 from ..gen.c20_layouts import LAYOUTS
+from ..gen import c20_trees
 from ..mc.explorer import bfs
 from ..ref.c20_model import Monitor, RegModel, Violation, STALL_LIMIT
 from ..vhdl.elab import compile_design
@@ -55,6 +56,10 @@ def emitted_vhdl(layout_name):
     return _vhdl_cache[layout_name]
 
 
+class Rejected(ToolError):
+    """the compiler rejected the layout (a tool error for the fixed layouts, counted for the generated family)"""
+
+
 class NeedKeep(Exception):
     """a compiler-generated process variable is live across activations: keep it in the snapshots"""
 
@@ -71,7 +76,7 @@ class AxiSystem:
         self.layout = layout
         res = emitted_vhdl(cfg["layout"])
         if not res.ok:
-            raise ToolError(f"layout {cfg['layout']} rejected by the compiler: {res.error}")
+            raise Rejected(f"layout {cfg['layout']} rejected by the compiler: {res.error}")
         try:
             d = compile_design(res.vhdl, poison=True, poison_exclude=tuple(sorted(keep)))
         except Unsupported as e:
@@ -275,7 +280,89 @@ class AxiSystem:
 def make_system(cfg):
     """build the system; compiler-generated variables that are live across activations are found dynamically
     (vsim poison mode reports a read-before-write in an activation) and kept in the snapshots"""
+    if cfg.get("tree") and cfg["layout"] not in LAYOUTS:
+        LAYOUTS[cfg["layout"]] = c20_trees.build(cfg["tree"])
     return AxiSystem(cfg, keep=cfg.get("keep", ()))
+
+
+# ----------------------------------------------------------------------------------------------------------
+# address-decode sweep over the generated nesting family (one deterministic master, every word address of the window)
+# ----------------------------------------------------------------------------------------------------------
+def sweep_data(a):
+    return 0xD1C2B3A4 ^ ((a >> 2) * 0x01010101)
+
+
+def tree_cfg(code, keep=()):
+    return {"name": "tree/" + code, "layout": "tree/" + code, "tree": code, "addrs": [], "wpay": [], "maxo": 1, "hw": None,
+            "max_states": 0, "keep": sorted(keep)}
+
+
+def sweep_ops(layout):
+    """every word address of the window is written once with its own data word (ascending), then every address is read,
+    then written again in descending order with the complemented data and read again"""
+    win = layout["window"]
+    ops = [("w", a, sweep_data(a)) for a in win] + [("r", a, None) for a in win]
+    ops += [("w", a, sweep_data(a) ^ 0xFFFFFFFF) for a in reversed(win)] + [("r", a, None) for a in reversed(win)]
+    return ops
+
+
+def run_sweep(system, ops, trace):
+    """sequential master: AW and W offered together, bready/rready high; one transaction at a time.
+    The monitor checks every clock (all register outputs, read data, protocol).  Raises Violation."""
+    mon = system.mon
+    idle = (None, None, None, 1, 1, 0)
+    for kind, a, d in ops:
+        ch = (a, (d, S1111), None, 1, 1, 0) if kind == "w" else (None, None, a, 1, 1, 0)
+        trace.append(ch)
+        system.step(ch)
+        n = 0
+        while mon.aw_hold is not None or mon.w_hold is not None or mon.ar_hold is not None or mon.wr_pend or mon.rd_pend \
+                or mon.aw_q or mon.w_q:
+            trace.append(idle)
+            system.step(idle)
+            n += 1
+            if n > 4 * STALL_LIMIT:
+                raise Violation("sweep-stall", "", f"transaction {kind}@0x{a:x} not completed after {n} clocks")
+        trace.append(idle)
+        system.step(idle)
+
+
+def sweep_trees(codes):
+    """worker: address-decode sweep of a chunk of trees"""
+    out = []
+    for code in codes:
+        t0 = time.process_time()
+        keep = set()
+        res = {"code": code, "findings": [], "steps": 0, "events": {}}
+        while True:
+            cfg = tree_cfg(code, keep)
+            trace = []
+            try:
+                system = make_system(cfg)
+                layout = LAYOUTS[cfg["layout"]]
+                run_sweep(system, sweep_ops(layout), trace)
+            except NeedKeep as nk:
+                new = {n.rsplit(".", 1)[-1] for n in nk.names}
+                if new <= keep:
+                    raise ToolError(f"poisoned read of kept variables {nk.names}")
+                keep |= new
+                continue
+            except Rejected as e:
+                res["rejected"] = str(e)[:300]
+                break
+            except Violation as v:
+                res["findings"].append({"rule": v.rule, "detail": v.detail, "text": v.text, "trace": trace, "cfg": cfg,
+                                        "depth": len(trace)})
+            res["steps"] = len(trace)
+            res["events"] = dict(system.mon.events)
+            res["registers"] = len(layout["regs"])
+            res["mapped_words"] = len(layout["window"]) - len(layout["unmapped"])
+            break
+        res["cpu"] = round(time.process_time() - t0, 2)
+        LAYOUTS.pop(cfg["layout"], None)
+        _vhdl_cache.pop(cfg["layout"], None)
+        out.append(res)
+    return out
 
 
 def explore(cfg):
@@ -410,7 +497,7 @@ def quick_variants():
         V("fields/q3", "fields", [0x0, 0x8, 0x4], [(B, F), (A, L)], 1, HW_FIXED),
         V("fields/q4", "fields", [0x0, 0x8, 0x4], [(A, F), (B, M)], 1, HW_FIXED),
         V("fields/q5", "fields", [0x0, 0x8, 0x4], [(A, F), (B, Z)], 1, HW_FIXED),
-        V("fields/q6", "fields", [0x8], [(A, F), (B, F)], 2, HW_CLEAR_ONLY),
+        V("fields/q6", "fields", [0x8], [(A, F)], 2, HW_CLEAR_ONLY),
         # L3 array of two MemWords at 0x0, 0x4; 0x8 unmapped
         V("array/q1", "array", [0x0, 0x4], [(A, F), (B, M)], 1),
         V("array/q2", "array", [0x4, 0x8], [(A, F), (B, L)], 1),
@@ -420,6 +507,8 @@ def quick_variants():
         # L5 three-word AddrRange window at 0x0 (range-compare decode) directly followed by MemWord 0xC
         V("range/q1", "range", [0x0, 0x8, 0xC], [(A, F), (B, L)], 1),
         V("range/q2", "range", [0x8, 0xC], [(A, F), (B, M)], 1),
+        # L7 Interconnect in front of a register-map slave at 0x10 (the slave drops awready / wready separately)
+        V("icon/q1", "icon", [0x10, 0x14], [(A, F), (B, L)], 1),
     ]
 
 
@@ -461,7 +550,17 @@ def thorough_variants():
         V("memory/t1", "memory", [0x8, 0xC], [(A, F), (B, M)], 2, max_states=big),
         V("memory/t2", "memory", [0x4, 0xC], [(A, F), (B, L)], 1, max_states=big),
         V("memory/t3", "memory", [0x0, 0x4], [(A, F), (B, M)], 1, max_states=big),
+        V("fields/t7", "fields", [0x8], [(A, F), (B, F)], 2, HW_CLEAR_ONLY, max_states=big),
+        V("icon/t1", "icon", [0x10, 0x4], [(A, F), (B, L)], 1, max_states=big),
+        V("icon/t2", "icon", [0x14, 0x18], [(A, F), (B, M)], 2, max_states=big),
     ]
+
+
+def work(task):
+    """pool worker: ("bfs", variant cfg) | ("trees", list of tree codes)"""
+    if task[0] == "bfs":
+        return ("bfs", explore(task[1]))
+    return ("trees", sweep_trees(task[1]))
 
 
 REQUIRED_EVENTS = {"b-transfer", "r-transfer", "aw-first", "w-first", "aw-w-same-edge", "aw-after-w", "w-after-aw",
@@ -478,13 +577,17 @@ def finding_key(layout, f):
 def main(run: Run):
     if run.thorough:
         vs = thorough_variants()
+        codes = c20_trees.thorough_codes()
     else:
         vs = quick_variants()
         pool = seed_pool()
         vs.append(pool[run.seed % len(pool)])
+        codes = c20_trees.quick_codes()
     only = getattr(run, "only", None)
     if only:
         vs = [v for v in vs if v["name"] in only or v["layout"] in only]
+        codes = codes if "trees" in only else [c for c in codes if ("tree/" + c) in only]
+
     # largest first: better packing on the pool
     def size_hint(v):
         hw = v["hw"] or {h[0]: h[2] for h in LAYOUTS[v["layout"]]["hw"]}
@@ -493,13 +596,43 @@ def main(run: Run):
             n *= len(vals)
         return (len(v["wpay"]) + 1) * (len(v["addrs"]) + 1) ** 2 * (4 if v["maxo"] > 1 else 1) * n
 
-    order = sorted(vs, key=lambda v: -size_hint(v))
+    tasks = [("bfs", v) for v in sorted(vs, key=lambda v: -size_hint(v))]
+    tasks += [("trees", chunk) for chunk in chunked(codes, 9 if not run.thorough else 20)]
     run.count("variants", len(vs))
+    run.count("trees", len(codes))
     all_events = set()
     layouts_seen = set()
-    for kind, r in pmap(explore, order, seed=run.seed):
+    tree_sampled = 0
+    for kind, res in pmap(work, tasks, seed=run.seed):
         if kind != "ok":
-            run.tool_error(f"worker failed: {r[-1500:]}")
+            run.tool_error(f"worker failed: {res[-1500:]}")
+            continue
+        what, r = res
+        if what == "trees":
+            for t in r:
+                if t.get("rejected"):
+                    run.count("trees_rejected")
+                    run.note(f"tree {t['code']} rejected by the compiler: {t['rejected'][-160:]}")
+                    continue
+                run.count("trees_swept")
+                run.count("sweep_clocks", t["steps"])
+                run.count("transitions", t["steps"])
+                run.count("states", t["steps"])
+                run.count("traces_validated_against_impl")
+                for k_, n_ in t["events"].items():
+                    run.count("event/" + k_, n_)
+                if not t["findings"]:
+                    run.count("trees_ok")
+                    run.count("tree_registers_decoded", t["registers"])
+                    if tree_sampled < 3 and t["code"].count(".") >= 2:
+                        tree_sampled += 1
+                        lay = c20_trees.build(t["code"])
+                        run.sample({"tree": t["code"], "documented_addresses": {x["name"]: hex(x["addr"]) for x in lay["regs"]},
+                                    "unmapped_words": len(lay["unmapped"]), "sweep_clocks": t["steps"]}, force=True)
+                for f in t["findings"]:
+                    key = finding_key("tree/" + t["code"], f)
+                    run.violation(key, f"tree {t['code']}: [{f['rule']}] {f['text'][:500]} (after {f.get('depth')} clocks)",
+                                  {"cfg": f.get("cfg"), "events": f["trace"], "rule": f["rule"], "detail": f["detail"]})
             continue
         layouts_seen.add(r["layout"])
         run.count("states", r["states"])
@@ -521,13 +654,16 @@ def main(run: Run):
             run.capped = True
             run.count("variants_capped")
             run.note(f"variant {r['name']}: state cap hit at {r['final_states']} states (not exhausted)")
-        info = {"variant": r["name"], "addresses": [hex(a) for a in _cfg_of(vs, r["name"])["addrs"]],
-                "write_payloads": [f"{d:08X}/{s:04b}" for d, s in _cfg_of(vs, r["name"])["wpay"]],
-                "max_outstanding": _cfg_of(vs, r["name"])["maxo"],
-                "hardware_inputs": _cfg_of(vs, r["name"])["hw"] or {h[0]: list(h[2]) for h in LAYOUTS[r["layout"]]["hw"]},
+        else:
+            run.count("variants_stopped_by_violation")
+        cv = _cfg_of(vs, r["name"])
+        info = {"variant": r["name"], "addresses": [hex(a) for a in cv["addrs"]],
+                "write_payloads": [f"{d:08X}/{s_:04b}" for d, s_ in cv["wpay"]],
+                "max_outstanding": cv["maxo"],
+                "hardware_inputs": cv["hw"] or {h[0]: list(h[2]) for h in LAYOUTS[r["layout"]]["hw"]},
                 "states": r["final_states"],
                 "transitions": r["final_transitions"], "depth": r["depth"], "exhausted": r["exhausted"],
-                "excluded_failing_inputs": [f"0x{a:x}/{s:04b}" for a, s in r["excluded"]], "cpu_s": r["cpu"]}
+                "excluded_failing_inputs": [f"0x{a:x}/{s_:04b}" for a, s_ in r["excluded"]], "cpu_s": r["cpu"]}
         run.sample(info, force=True)
         if r["name"].endswith("/q1"):
             run.sample({"variant": r["name"], "sample_run": r["sample_trace"]}, force=True)
@@ -543,20 +679,27 @@ def main(run: Run):
     run.max_samples = 64
     if not only and layouts_seen != ({v["layout"] for v in vs}):
         run.tool_error(f"layouts explored {sorted(layouts_seen)} != planned")
+    if codes and run.counters.get("trees_swept", 0) * 10 < len(codes) * 9:
+        run.tool_error(f"vacuous: only {run.counters.get('trees_swept', 0)} of {len(codes)} generated layouts were accepted and swept")
     run.assume("data abstraction: write data ranges over the two words A1B2C3D4 and 5E6F7081 (all eight bytes distinct), "
                "strobes over {0000,0001,0110,1111}, addresses over the word addresses of a 4-bit address space; "
                "independence of the design from other data values / bit lanes within a byte is assumed, not proved")
     run.assume("alphabet variants: each variant (see samples: addresses, write payloads, hardware-side values, "
                "max outstanding requests per channel) is explored exhaustively; interactions between payloads that "
                "never share a variant are not covered")
+    run.assume("generated nesting family (trees): address decode is checked with ONE deterministic sequential master per "
+               "tree (every word address of the 7-bit window written with its own data word, then read; twice) - all "
+               "valid/ready interleavings are explored only on the fixed layouts, which share the AXI front end")
     run.assume("reset is held inactive; awprot/arprot are 0; addresses are word aligned; idle channels carry trap payloads")
     run.assume(f"liveness is checked as bounded response: progress within {STALL_LIMIT} clocks for a cooperating master")
     run.assume("vsim (own VHDL-2008 subset simulator) implements IEEE 1076/numeric_std semantics; dead compiler-generated "
                "process variables are left out of state snapshots (vsim poison mode proves them dead on every explored transition)")
+    done = run.counters.get("variants_exhausted", 0) == len(vs) and run.counters.get("trees_ok", 0) == len(codes)
     run.coverage_extra.update(
-        exhaustive=(not run.capped) and run.counters.get("variants_exhausted", 0) == len(vs),
-        rule="per layout and alphabet variant: every reachable state of (emitted design x register model + AXI monitor x "
-             "master/hardware environment) under every per-clock environment choice",
+        exhaustive=(not run.capped) and done,
+        rule="(1) per fixed layout and alphabet variant: every reachable state of (emitted design x register model + AXI "
+             "monitor x master/hardware environment) under every per-clock environment choice; (2) every layout tree of the "
+             "nesting grammar (verif/gen/c20_trees.py) x every word address of the window, sequential master",
         layouts=sorted(layouts_seen),
         events_seen=sorted(all_events),
     )
